@@ -69,10 +69,13 @@ def regexpp(regex: Any) -> str:
     if result.endswith("\\") and (len(result) - len(result.rstrip("\\"))) % 2 != 0:
         result += "\\"
 
+    # NOTE: a quote is already escaped only when an odd number of backslashes precede it
     if result.endswith("'") or result.count("'") > result.count('"'):
-        output = f'r"{re.sub(r'(?<!\\)"', r"\"", result)}"'
+        quoted = re.sub(r'\\.|"', lambda m: r"\"" if m[0] == '"' else m[0], result, flags=re.DOTALL)
+        output = f'r"{quoted}"'
     else:
-        output = f"r'{re.sub(r"(?<!\\)'", r"\'", result)}'"
+        quoted = re.sub(r"\\.|'", lambda m: r"\'" if m[0] == "'" else m[0], result, flags=re.DOTALL)
+        output = f"r'{quoted}'"
 
     try:
         evaluated = eval(output)  # noqa: S307
